@@ -1616,6 +1616,67 @@ def rule_bound_prov(chk, eng):
         raise core.AnalysisError("bound provenance: no (validated array, loop bound) pair found")
 
 
+# ----------------------------------------------------------------------------
+# rule 6b: definite non-contiguity reaching a native call
+# ----------------------------------------------------------------------------
+def rule_noncontig(chk, eng):
+    """A pointer argument whose value is provably a strided view (inner-axis / stepped slice of an array with several
+    axes; see sa.layout) -- directly, through locals, self attributes, module globals or the return value of a
+    repository function -- and that is not re-made contiguous or asserted contiguous before the call."""
+    from sa import layout
+    le = layout.Engine(chk.tree, eng.rels)
+    n = 0
+    resolvers, fgs = {}, {}
+    for s in eng.sites:
+        fn = pf.enclosing_func(s.node)
+        if fn is None:
+            continue
+        g, _ = le.reaching(fn)
+        cn = g.stmt_of_expr(s.node)
+        seen = set()
+        for c, al in s.pairs:
+            if c is None or al is None:
+                continue
+            for i, it in enumerate(al):
+                src = it[1]
+                if it[0] != "ptr" or ".ctypes" not in src:
+                    continue
+                subj = src.split(".ctypes")[0]
+                if (subj, i) in seen:
+                    continue
+                seen.add((subj, i))
+                try:
+                    e = ast.parse(subj, mode="eval").body
+                except SyntaxError:
+                    continue
+                n += 1
+                inst = "%s:%s %s argument %d `%s`" % (s.rel, s.func, "|".join(s.callees), i + 1, subj)
+                r = le.view_reason(s.rel, fn, e, cn.id if cn is not None else None)
+                if r is None:
+                    chk.ok("noncontig", inst, nontrivial=False)
+                    continue
+                # a dominating contiguity assert turns the silent corruption into a rejection
+                key = (s.rel, id(fn))
+                if key not in fgs:
+                    if s.rel not in resolvers:
+                        resolvers[s.rel] = guards.Resolver(chk.tree.py(s.rel))
+                    fgs[key] = guards.FunctionGuards(fn, resolvers[s.rel])
+                fg = fgs[key]
+                ids = {nid for nid, d in fg.node_kinds().items() if "contig" in d.get(subj, ())}
+                fcn = fg.cfg.stmt_of_expr(s.node)
+                if ids and fcn is not None and fg.guaranteed(ids, [fcn.id]):
+                    chk.ok("noncontig", inst + " (view, but contiguity is asserted before the call)")
+                    continue
+                chk.violation("noncontig", s.rel, s.func, "%s(... %s ...)" % ("|".join(s.callees), subj), s.line,
+                              "argument %d of %s is `%s.ctypes.data_as(...)`, and `%s` is %s: a strided view whose data "
+                              "pointer is handed to C, which addresses it as a dense block (no np.ascontiguousarray / "
+                              ".copy() / contiguity assert on the way)" % (i + 1, "|".join(s.callees), subj, subj, r),
+                              instance=inst)
+    chk.count("pointer arguments traced for strided views", n)
+    if n == 0:
+        raise core.AnalysisError("noncontig: no array pointer argument found at the ctypes call sites")
+
+
 def _analyse_own(chk):
     tree = chk.tree
     chk.rule("ffi", "ctypes call sites conform to the C prototypes (SysV landing slots, kinds, restype, callbacks)")
@@ -1652,6 +1713,8 @@ def _analyse_own(chk):
         chk.rule("bound-prov", "the count C loops over equals the extent the array was validated / allocated with "
                                "(decided when both are functions of one array's shape)")
         chk.guard(rule_bound_prov, box["eng"])
+        chk.rule("noncontig", "no provably strided view (inner-axis / stepped slice) reaches a ctypes pointer argument")
+        chk.guard(rule_noncontig, box["eng"])
     else:
         chk.errors.append("rule_guards: not run because the ctypes engine failed")
     chk.floor("ffi", 50, "half of the 103 ctypes call sites")
@@ -1662,6 +1725,7 @@ def _analyse_own(chk):
     chk.floor("dispatch", 12, "half of the multi-arm string ladders")
     chk.floor("expnt-guard", 1, "eval_feat_exp")
     chk.floor("guards", 204, "half of the 408 frozen guard signatures")
+    chk.floor("noncontig", 150, "half of the array pointer arguments at the ctypes call sites")
     chk.floor("bound-prov", 5, "(validated array, loop bound) pairs")
     chk.floor("reject-mode", 10, "half of the mode x class combinations")
     chk.assumptions += [
